@@ -133,6 +133,27 @@ Proof.
 Qed.
 Print Assumptions C09_hw_tree_acyclic_src_nx.
 
+(* Part 7: C09 exactly as the checker states it for SOURCE-ROUTED tree-shaped descriptions, with the generator's own
+   oracle: the checker's pair enumeration (role flags of the emitted interfaces, header read back from the emitted
+   RoutingTables through the row selector and the destination identity) yields exactly flits steered by the words
+   gen_route produced, so its dependency sets are among those of C09_hw_tree_acyclic_src_nx. *)
+Theorem C09_model_tree_src_nx :
+  forall (d : desc) (g : graph) (c : compiled) (ri : rinfo) (n : netlist) (dp : list (string * Z)),
+    build d = Ok g -> compile d g = Ok c -> gen_routing_info sp_nx c = Ok ri -> emit c ri = Ok n -> d_algo d = SRC ->
+    first_hopb sp_nx g c Req = true -> first_hopb sp_nx g c Rsp = true ->
+    names_sepb g Req = true -> names_sepb g Rsp = true -> single_attachb g c = true -> links_typedb g c = true ->
+    enum_names_nodupb c = true -> tree_certb g dp = true ->
+    C09_on n.
+Proof. exact model_tree_C09_src_nx. Qed.
+Print Assumptions C09_model_tree_src_nx.
+
+Theorem C09_tree_conditions_sound_src_nx :
+  forall (d : desc) (g : graph) (c : compiled) (ri : rinfo) (n : netlist),
+    build d = Ok g -> compile d g = Ok c -> gen_routing_info sp_nx c = Ok ri -> emit c ri = Ok n -> d_algo d = SRC ->
+    (exists bs, tree_conditions sp_nx d = Ok bs /\ forallb (fun b => b) bs = true) -> C09_on n.
+Proof. exact tree_conditions_sound_src_nx. Qed.
+Print Assumptions C09_tree_conditions_sound_src_nx.
+
 (* the generic core, for any set of routes over any links *)
 Theorem C09_tree_routes_acyclic :
   forall (nt : net) (L : list link) (dep : string -> Z),
@@ -154,7 +175,7 @@ From FV Require Import Examples.
 Example C09_hw_tree_nonvacuous :
   forallb (fun sp => forallb (fun d =>
     match tree_conditions sp d with
-    | Ok bs => forallb (fun b => b) bs && Nat.eqb (length bs) 10
+    | Ok bs => forallb (fun b => b) bs && Nat.eqb (length bs) 11
     | Err _ => false
     end) [ex_star ID; ex_tree ID; ex_star SRC; ex_tree SRC]) [sp_reference; sp_nx] = true /\
   match tree_conditions sp_nx (ex_mesh ID) with Ok [false] => true | _ => false end = true.
